@@ -358,9 +358,28 @@ TOP = None  # represents "unreachable": every name is assigned
 
 def defassign(func):
     """structured definite-assignment analysis. Returns list of (Name node) loads that may be unbound."""
+    # names bound by comprehensions / generator expressions / lambdas live in a scope of their own
+    inner = set()
+    inner_nodes = set()
+    for n in ast.walk(func.node):
+        if isinstance(n, (ast.ListComp, ast.SetComp, ast.DictComp, ast.GeneratorExp)):
+            own = set()
+            for g in n.generators:
+                for x in ast.walk(g.target):
+                    if isinstance(x, ast.Name):
+                        own.add(x.id)
+                        inner_nodes.add(id(x))
+            for x in ast.walk(n):
+                if isinstance(x, ast.Name) and x.id in own:
+                    inner_nodes.add(id(x))
+        if isinstance(n, ast.Lambda):
+            own = set(a.arg for a in n.args.args)
+            for x in ast.walk(n.body):
+                if isinstance(x, ast.Name) and x.id in own:
+                    inner_nodes.add(id(x))
     locs = set()
     for n in ast.walk(func.node):
-        if isinstance(n, ast.Name) and isinstance(n.ctx, ast.Store):
+        if isinstance(n, ast.Name) and isinstance(n.ctx, ast.Store) and id(n) not in inner_nodes:
             locs.add(n.id)
     params = set(p.name for p in func.params)
     bad = []
@@ -370,7 +389,7 @@ def defassign(func):
             return
         for n in ast.walk(expr):
             if isinstance(n, ast.Name) and isinstance(n.ctx, ast.Load) and n.id in locs and n.id not in params \
-                    and n.id not in defined:
+                    and n.id not in defined and id(n) not in inner_nodes:
                 bad.append(n)
 
     def targets(t, defined):
